@@ -553,7 +553,37 @@ func buildConfigViaAPI(c *CfgSpec, host *OpHost, optMask int, setOpts bool) *eva
 			opts = append(opts, eval.Optimizations(false, off...), eval.Optimizations(true, on...))
 		}
 	}
+	if c.DirStyle%3 == 2 {
+		// every option given twice: options are settings, not toggles
+		opts = append(opts, opts...)
+	}
 	cc := eval.NewConfig(opts...)
+	if c.DirStyle%3 == 1 {
+		// everything arrives through a base configuration and ExtendConf; the
+		// base is emptied afterwards (the extension owns its copy)
+		defer func(ext *eval.Config) {
+			base := *ext
+			*ext = *eval.NewConfig(eval.ExtendConf(&base))
+			for k := range base.ConstantMap {
+				delete(base.ConstantMap, k)
+			}
+			for k := range base.OperatorMap {
+				delete(base.OperatorMap, k)
+			}
+			for k := range base.VariableKeyMap {
+				delete(base.VariableKeyMap, k)
+			}
+			for k := range base.CompileOptions {
+				delete(base.CompileOptions, k)
+			}
+			for k := range base.CostsMap {
+				delete(base.CostsMap, k)
+			}
+			for i := range base.StatelessOperators {
+				base.StatelessOperators[i] = "emptied"
+			}
+		}(cc)
+	}
 	for _, k := range sortedKeys(c.Consts) {
 		cc.ConstantMap[k] = c.Consts[k].Go()
 	}
